@@ -261,6 +261,7 @@ func main() {
 	n := flag.Int("n", 2000, "approximate number of generated cases")
 	maxpl := flag.Int("maxpayload", 1472, "largest payload length of the regular sweep")
 	replay := flag.String("replay", "", "replay the case stored in this JSON file (field \"input\")")
+	huge := flag.Bool("huge", false, "include payloads around and beyond 65507 bytes")
 	hunt := flag.Int("hunt", 0, "failing-input search: extra Fill calls per builder whose spoofed fields are range-checked")
 	flag.Parse()
 	w := hlib.NewOut(*out)
@@ -281,7 +282,7 @@ func main() {
 		w.Put(c)
 		return
 	}
-	g := &gen{r: hlib.NewRand(*seed), w: w, maxpl: *maxpl}
+	g := &gen{r: hlib.NewRand(*seed), w: w, maxpl: *maxpl, huge: *huge, maxsweep: 1472}
 	g.all(*n)
 	if *hunt > 0 {
 		g.hunt(*hunt)
